@@ -1,4 +1,5 @@
 import HypatiaModel.Keyword
+import HypatiaModel.IndexObs
 import HypatiaModel.Spec.KeywordSpec
 import Driver.Sess
 namespace Driver.KeywordS
@@ -28,7 +29,7 @@ def obs (st : St) : String :=
   let noVal := kn.filter (fun d => Spec.withdrawn t d)
   let vals := (withKw.flatMap (Spec.kwOf t)).eraseDups
   s!"indexed={showIdSet (indexed s)} ni={showIdSet s.notIndexed} docids={showIdSet (docids s)} " ++
-  s!"ic={indexedCount s} nic={notIndexedCount s} dc={(docids s).length} wc={wordCount s} " ++
+  s!"ic={indexedCount s} nic={notIndexedCount s} dc={docidsCount s} wc={wordCount s} " ++
   s!"uv=[{showInts (sortInts (uniqueValues s))}]" ++ " ## " ++
   s!"indexed={showIdSet withKw} ni={showIdSet noVal} docids={showIdSet kn} " ++
   s!"ic={withKw.length} nic={noVal.length} dc={kn.length} wc={vals.length} " ++
@@ -83,12 +84,25 @@ def step0 (st : St) (toks : List String) : St × String :=
     | some q => (st, both (QObj.apply st.s q) (Spec.sem st.t q))
     | none => (st, "bad-op")
   | ["obs"] => (st, obs st)
+  -- C06: a new index with the current threshold that indexed the current mapping once (model side:
+  -- really built, `Keyword.fresh`; specification side: the table's answer)
+  | ["obsfresh"] => (st, obs { s := Keyword.fresh st.s.thr st.t, t := st.t })
+  -- C06: the `_num_docs` Length (no public reader; the harness probes it only where it exists)
+  | ["numdocs"] =>
+    let withKw := (Spec.known st.t).filter (fun d => !(Spec.kwOf st.t d).isEmpty)
+    (st, toString (numDocsCounter st.s) ++ " ## " ++ toString withKw.length)
   | ["tags"] => (st, "tags " ++ tags st.s ++ " ## tags-any")   -- the property leaves the representation free
   | ["repr", d] =>
     match d.toInt? with
     | some d =>
       let f : List Int → String := fun l => if l = [] then "none" else "[" ++ showInts (sortInts l) ++ "]"
       (st, f ((documentRepr st.s d).getD []) ++ " ## " ++ f (Spec.kwOf st.t d).eraseDups)
+    | none => (st, "bad-op")
+  | ["reprfresh", d] =>
+    match d.toInt? with
+    | some d =>
+      let f : List Int → String := fun l => if l = [] then "none" else "[" ++ showInts (sortInts l) ++ "]"
+      (st, f ((documentRepr (Keyword.fresh st.s.thr st.t) d).getD []) ++ " ## " ++ f (Spec.kwOf st.t d).eraseDups)
     | none => (st, "bad-op")
   | _ => (st, "bad-op")
 
